@@ -109,8 +109,10 @@ CLAIMED = {
                      'C09_broadcast_error_iff (ValueError exactly when no common suffix exists), C09_broadcast_is_least (engine level: both operands '
                      '<= result <= every common suffix, via the is_prefix refinement of C07), C09_lub_comm (argument order changes the result only up '
                      'to mutual prefix, i.e. dict kind / key order / entries), C09_lub_of_prefix (a <= b gives b back up to mutual prefix, same size). '
-                     'The leaf replication of tree_broadcast_prefix and the n-ary tree_broadcast_map: correspondence against the model plus a reference '
-                     'least-common-suffix in the oracle.' + PARTIAL,
+                     'C09_broadcast_prefix_tree (tree level, no predicate: when the prefix treespec matches the full tree, tree_broadcast_prefix builds the prefix shape '
+                     'with the matched subtrees grafted on, and its leaves are each prefix leaf repeated once per leaf of the subtree it covers: every leaf equals the '
+                     'prefix leaf above it; on unflatten_graft, Lemmas/GraftBuild.lean). That the grafted shape is the shape of the full tree up to dict kind / order, '
+                     'and the n-ary tree_broadcast_map: correspondence against the model (bprefix / bcommon / bmap lines) plus a reference least-common-suffix in the oracle.' + PARTIAL,
                 technique='Lean 4 proof (refinement of the two-array merge walk to a tree-level lub, induction on fuel + list inductions) + correspondence + reference oracle', ref='6 C09'),
     'C10': dict(text='Proved: C10_chunks_flatten, C10_chunks_row_length, C10_chunks_get, C10_transpose_rows (value at (j,i) = value at (i,j)), '
                      'C10_rejects, C10_wrong_count about the model of tree_transpose; C10_transpose_tree (tree level, global namespace, no predicate: for an outer tree with '
